@@ -26,7 +26,7 @@ func init() {
 				n = 4000
 			}
 			return fw.Meta{N: n, Level: "fault_enumeration", Chunk: 4, CaseTimeoutS: 300, MinNT: 40,
-				Rule:        "one case = one generated file (1..12 records incl. nil/empty/0x00-leading/marker-laden payloads, 4 compression types, write buffers {8,64,4096}); on it: (a) every truncation length 0..size -> sequential reader must return exactly the records wholly inside the prefix then EOF/error, ReadNextAt(off_i) must return record i or an error; (b) every record-header byte (located by the harness's independent parser) x all 255 other values when the file has <= 6000 such variants, else bit flips + {00,ff,91,8d,4c,+1,-1} -> reading that record must fail in both readers, earlier records unaffected; (c) every file-header byte x 255 values that makes version outside 1..4 or compression > 3 -> Open must fail in both readers. evaluations = damaged copies; non-trivial = file with >=2 records whose damaged copies were all judged; distinct by file content hash",
+				Rule:        "one case = one generated file (1..12 records incl. nil/empty/0x00-leading/marker-laden payloads, 4 compression types, write buffers {8,64,4096}); on it: (a) every truncation length 0..size -> sequential reader must return exactly the records wholly inside the prefix then EOF/err, a second sequential program mixing SkipNext in must never READ anything but the written record of its position (every 4th case through the direct-I/O reader factory on a real file system)or, ReadNextAt(off_i) must return record i or an error; (b) every record-header byte (located by the harness's independent parser) x all 255 other values when the file has <= 6000 such variants, else bit flips + {00,ff,91,8d,4c,+1,-1} -> reading that record must fail in both readers, earlier records unaffected; (c) every file-header byte x 255 values that makes version outside 1..4 or compression > 3 -> Open must fail in both readers. evaluations = damaged copies; non-trivial = file with >=2 records whose damaged copies were all judged; distinct by file content hash",
 				MinObs:      map[string]int64{"truncations_checked": 5000, "header_byte_alterations_checked": 20000, "file_header_alterations_rejected": 10000, "crc_last_byte_continuation_with_zero_payload_byte": 1},
 				Assumptions: []string{"a damaged copy may be served only if every returned record equals the written one", "legacy versions 1..3 written into the file header are valid codes and not required to be rejected"},
 			}
@@ -103,6 +103,11 @@ func runC12(c *fw.Case) {
 	}
 	cfg := fmt.Sprintf("comp=%d wbuf=%d records=%d size=%d", comp, wbuf, len(recs), len(img))
 	dmg := filepath.Join(c.Dir, "dmg.rio")
+	directCase := c.Idx%4 == 0
+	dmgDisk := ""
+	if directCase {
+		dmgDisk = filepath.Join(c.DiskDir(), "dmg.rio")
+	}
 	feat := ""
 	if comp != 0 {
 		feat = "/compressed"
@@ -153,6 +158,52 @@ func runC12(c *fw.Case) {
 				c.Violate("recordio/"+kind+"/seq/open-failed"+feat, "%s %s: Open failed: %v", cfg, what, err)
 			}
 			_ = rd.Close()
+		}
+		// a second sequential pass that mixes SkipNext into the program (a skip returns no data, so it may succeed on a
+		// record that is cut; whatever is READ afterwards must still be a written record at its position). For cut files of
+		// every 4th case the pass runs through the direct-I/O reader factory on a real file system.
+		if kind == "truncate" && len(data) >= 8 {
+			path := dmg
+			ropts := []recordio.FileReaderOption{recordio.ReaderBufferSizeBytes(gen.Pick(r, 16, 37, 4096))}
+			viaDirect := directCase
+			if viaDirect {
+				path = dmgDisk
+				if err := os.WriteFile(path, data, 0644); err != nil {
+					viaDirect, path = false, dmg
+				} else {
+					ropts = []recordio.FileReaderOption{recordio.ReaderBufferSizeBytes(gen.Pick(r, 4096, 8192)), recordio.ReaderIoFactory(recordio.DirectIOFactory{})}
+					c.Obs("cut_files_read_through_the_direct_io_reader", 1)
+				}
+			}
+			rfeat := feat
+			if viaDirect {
+				rfeat += "/directio-reader"
+			}
+			if rd, err := recordio.NewFileReader(append(ropts, recordio.ReaderPath(path))...); err == nil {
+				if rd.Open() == nil {
+					prog := ""
+					for i := 0; i <= len(recs)+1; i++ {
+						if r.Intn(2) == 0 {
+							prog += "s"
+							if err := rd.SkipNext(); err != nil {
+								break
+							}
+							c.Obs("skips_in_cut_files", 1)
+							continue
+						}
+						prog += "r"
+						got, err := rd.ReadNext()
+						if err != nil {
+							break
+						}
+						if i >= okUpTo || i >= len(recs) || !sameRec(got, recs[i]) {
+							c.Violate("recordio/truncate/seq-with-skips/returned-data-for-damaged-record"+rfeat, "%s %s program %s: ReadNext at position %d returned %s; %d records are intact (written there: %s)", cfg, what, prog, i, fw.Hex(got), okUpTo, hexOrNone(recs, i))
+							break
+						}
+					}
+				}
+				_ = rd.Close()
+			}
 		}
 		// random access reader
 		mr, err := recordio.NewMemoryMappedReaderWithPath(dmg)
